@@ -59,6 +59,22 @@ PY_BUILTIN_FUNCS = {"len", "isinstance", "issubclass", "getattr", "setattr", "ma
                     "callable", "map", "super", "iter", "reversed", "abs", "print", "id", "zip"}
 
 
+def pattern_ok(t: Any, _seen: Optional[set] = None) -> bool:
+    """May term t be used inside a quantifier pattern (no ite / connectives / quantifiers)?"""
+    seen = _seen if _seen is not None else set()
+    if t.get_id() in seen:
+        return True
+    seen.add(t.get_id())
+    if z3.is_quantifier(t):
+        return False
+    if z3.is_app(t):
+        k = t.decl().kind()
+        if k in (z3.Z3_OP_ITE, z3.Z3_OP_AND, z3.Z3_OP_OR, z3.Z3_OP_NOT, z3.Z3_OP_IMPLIES):
+            return False
+        return all(pattern_ok(c, seen) for c in t.children())
+    return True
+
+
 class Exec:
     def __init__(self, repo: Repo, ct: M.ClassTable, contracts: Any, fname: str = "") -> None:
         self.repo = repo
@@ -616,8 +632,7 @@ class Exec:
                     r = self.to_text(v, s, conv)
                     parts.append(r)
             z = parts[0] if len(parts) == 1 else (z3.Concat(*parts) if parts else z3.StringVal(""))
-            z = z3.simplify(z)
-            self.note_concat(s, z, self.flat_concat(z))
+            z = self.named_concat(s, z3.simplify(z))
             out.append((s, T(M.StrV(z), "str")))
         return out
 
@@ -629,6 +644,15 @@ class Exec:
             return out
         return [z]
 
+    def named_concat(self, st: State, z: Any) -> Any:
+        """Give a concatenation a name (ite / arithmetic may not occur in quantifier patterns) and record
+        the string-theory hints about it."""
+        parts = self.flat_concat(z)
+        if len(parts) <= 1:
+            return z
+        self.note_concat(st, z, parts)
+        return z
+
     def note_concat(self, st: State, z: Any, parts: List[Any]) -> None:
         """String-theory facts the solver is slow to find: a concatenation contains each of its parts,
         and all_in distributes over it.  Theorems of the theory, added as hints."""
@@ -638,8 +662,9 @@ class Exec:
                 if not z3.is_string_value(q):
                     st.assume(z3.Contains(z, q))
             al = z3.Const("cal", M.S)
-            st.assume(z3.ForAll([al], M.all_in(z, al) == z3.And(*[M.all_in(p, al) for p in parts]),
-                                patterns=[M.all_in(z, al)]))
+            if pattern_ok(z):     # ite / boolean connectives may not occur in a pattern: no hint then
+                st.assume(z3.ForAll([al], M.all_in(z, al) == z3.And(*[M.all_in(p, al) for p in parts]),
+                                    patterns=[M.all_in(z, al)]))
 
     def to_text(self, v: Any, st: State, conv: str) -> Any:
         """repr()/str() text.  Text of non-string objects is uninterpreted (a total function of the
@@ -962,8 +987,7 @@ class Exec:
             if isinstance(a, Tup) and isinstance(b, Tup):
                 return [(st, Tup(a.items + b.items))]
             if ha == "str" and hb == "str":
-                zc = z3.simplify(z3.Concat(M.sval(self.term(a, st)), M.sval(self.term(b, st))))
-                self.note_concat(st, zc, self.flat_concat(zc))
+                zc = self.named_concat(st, z3.simplify(z3.Concat(M.sval(self.term(a, st)), M.sval(self.term(b, st)))))
                 return [(st, T(M.StrV(zc), "str"))]
             if ha in ("list",) and hb in ("list",):
                 za = self.seq_snap(a, st)
